@@ -108,7 +108,9 @@ fn is_start_code(bits: &[bool], at: usize) -> Option<bool> {
 }
 
 const EOF: &str = "Err(eof)";
-const INTERNAL: &str = "Err(internal)";
+/// An error whose kind the property does not fix (over-wide width, invalid vector code): any
+/// error value satisfies the expectation.
+const INTERNAL: &str = "Err(*)";
 
 impl Model {
     fn mask(w: u32) -> u64 {
@@ -486,7 +488,11 @@ pub fn check_sequence(data: &[u8], src: SourceKind, ops: &[Op]) -> Result<(u64, 
     for (i, (g, w)) in got.iter().zip(want.iter()).enumerate() {
         match w {
             Want::Exact(s) => {
-                if g != s {
+                if s == INTERNAL || s == "Err(invalid mvd)" {
+                    if !g.starts_with("Err(") {
+                        return Err(format!("observation {}: reader gave {}, an error was expected (log so far {:?})", i, g, &got[..=i]));
+                    }
+                } else if g != s {
                     return Err(format!("observation {}: reader gave {}, bit-vector model gives {} (log so far {:?})", i, g, s, &got[..=i]));
                 }
             }
